@@ -13,6 +13,7 @@ package c09
 
 import (
 	"bytes"
+	"errors"
 	"fmt"
 	"io"
 	"math"
@@ -410,6 +411,21 @@ func TestC09(t *testing.T) {
 			if kind, d := checkCut(R, j.c, j.rs, j.data, j.ends, cut, j.oneByte); kind != "" {
 				d["stream_indices"] = streams[j.si]
 				out[ji] = append(out[ji], viol{j.c.name + ":truncated:" + kind, d})
+			}
+			if isEnd[cut] && cut > 0 && !j.oneByte {
+				// the commands do not know the encoding: the same prefix through format detection
+				R.Eval(1)
+				R.Part(j.c.name, "cut_at_record_boundary_through_DecoderFor", 1)
+				ac := codec{j.c.name, j.c.enc, func(r io.Reader) vegeta.Decoder {
+					if d := vegeta.DecoderFor(r); d != nil {
+						return d
+					}
+					return func(*vegeta.Result) error { return errors.New("DecoderFor: no decoder for this stream") }
+				}}
+				if kind, d := checkCut(R, ac, j.rs, j.data, j.ends, cut, false); kind != "" {
+					d["stream_indices"] = streams[j.si]
+					out[ji] = append(out[ji], viol{j.c.name + ":detected:truncated:" + kind, d})
+				}
 			}
 		}
 		if j.cuts != nil {
